@@ -4298,7 +4298,7 @@ var propPkgs = map[string][]string{
 	"C13": {"filter", "agdservice.", "agdhttp.", "cmd."},
 	"C14": {"profiledb", "backendpb.", "agdservice."},
 	"C15": {"querylog.", "dnssvc/internal/mainmw.", "dnssvc/internal/ratelimitmw.", "profiledb", "access.", "filter/internal."},
-	"C16": {"billstat.", "backendpb.", "dnssvc/internal/mainmw.", "agdservice.", "geoip.", "ecscache.", "dnsserver."},
+	"C16": {"billstat.", "backendpb.", "dnssvc/internal/mainmw.", "dnssvc/internal/ratelimitmw.", "dnssvc/internal/preservice.", "agdservice.", "geoip.", "ecscache.", "dnsserver."},
 	"C17": {"dnsserver/forward.", "dnsserver/pool.", "cmd."},
 	"C18": {"connlimiter.", "dnsserver.", "dnssvc.", "cmd."},
 	"C19": {"websvc.", "cmd."},
@@ -4340,6 +4340,9 @@ func classSweep(c *an.Ctx, prop string) {
 	add("sorted-search", sharedSortedSearch(c, rule, pk...))
 	add("decode-targets", sharedFreshDecodeTarget(c, rule, pk...))
 	add("per-iteration", sharedPerIterationObjects(c, rule, pk...))
+	add("single-put", sharedSinglePut(c, rule, pk...))
+	add("loop-errors", sharedLoopErrorNotDropped(c, rule, pk...))
+	add("opt-ttl", sharedTTLStoreSkipsOPT(c, rule, pk...))
 	n := 0
 	for _, p := range pk {
 		n += sharedNoShallowCopy(c, rule, p, "github.com/miekg/dns.Msg")
@@ -4633,4 +4636,321 @@ func sharedDomainConcatBounded(c *an.Ctx, rule string, allowed map[string]string
 		})
 	}
 	return examined
+}
+
+// sharedSinglePut is the rule that a pooled object goes back to its pool at
+// most once per taking: two Put calls with the same value that can both happen
+// on one path (a deferred Put plus an explicit one, or one Put that reaches the
+// other) leave the object in the pool twice, and two later users then share it.
+// Returns the number of functions with a Put examined.
+func sharedSinglePut(c *an.Ctx, rule string, prefixes ...string) (examined int) {
+	for _, fn := range c.AllFns {
+		if fn.Blocks == nil || c.IsTestFile(fn.Pos()) || !hasAnyPrefix(an.FnKey(fn), prefixes) {
+			continue
+		}
+		k := an.FnKey(fn)
+		byVal := map[ssa.Value][]ssa.CallInstruction{}
+		for _, call := range an.Calls(fn) {
+			if !isPoolPut(call) {
+				continue
+			}
+			args := call.Common().Args
+			v := args[len(args)-1]
+			if mi, ok := v.(*ssa.MakeInterface); ok {
+				v = mi.X
+			}
+			byVal[v] = append(byVal[v], call)
+		}
+		if len(byVal) == 0 {
+			continue
+		}
+		examined++
+		for v, puts := range byVal {
+			if len(puts) < 2 {
+				continue
+			}
+			bad := ""
+			for i, a := range puts {
+				for j, b := range puts {
+					if i >= j {
+						continue
+					}
+					_, ad := a.(*ssa.Defer)
+					_, bd := b.(*ssa.Defer)
+					switch {
+					case ad && bd:
+						bad = "two deferred Put calls"
+					case ad || bd:
+						// the deferred one runs at every exit: the explicit one doubles it unless it cannot be
+						// reached once the defer is registered (it always can when the defer comes first)
+						d, e := a, b
+						if bd {
+							d, e = b, a
+						}
+						if an.CanReach(d, e) {
+							bad = "an explicit Put in addition to the deferred one"
+						}
+					default:
+						if an.CanReach(a, b) || an.CanReach(b, a) {
+							bad = "two Put calls on one path"
+						}
+					}
+				}
+			}
+			c.Analysed(k)
+			name := v.Name()
+			if ap, ok := an.AccessPath(v); ok {
+				name = ap
+			}
+			c.Check(bad == "", rule, k+" returns "+name+" to its pool once", puts[0].Pos(),
+				"at most one Put of the object on any path", bad+": the object sits in the pool twice and two later users share it")
+		}
+	}
+	return examined
+}
+
+// sharedLoopErrorNotDropped is the rule for validation and conversion loops: an
+// error obtained for one element inside a loop is acted upon in that iteration
+// (the function returns, the loop is left, or the error is collected with
+// append / errcoll.Collect / errors.Join); if the non-nil branch simply flows
+// on to the next iteration, a later element's nil result replaces the error and
+// the invalid element is accepted.  Returns the number of error tests inside
+// loops examined.
+func sharedLoopErrorNotDropped(c *an.Ctx, rule string, prefixes ...string) (examined int) {
+	errT := types.Universe.Lookup("error").Type()
+	for _, fn := range c.AllFns {
+		if fn.Blocks == nil || c.IsTestFile(fn.Pos()) || !hasAnyPrefix(an.FnKey(fn), prefixes) || strings.Contains(c.Pos(fn.Pos()), ".pb.go:") {
+			continue
+		}
+		k := an.FnKey(fn)
+		for _, l := range naturalLoops(fn) {
+			for b := range l.blocks {
+				ifi, ok := b.Instrs[len(b.Instrs)-1].(*ssa.If)
+				if !ok {
+					continue
+				}
+				bo, ok := ifi.Cond.(*ssa.BinOp)
+				if !ok || (bo.Op != token.NEQ && bo.Op != token.EQL) {
+					continue
+				}
+				var ev ssa.Value
+				switch {
+				case an.IsNilConst(bo.Y) && types.Identical(bo.X.Type(), errT):
+					ev = bo.X
+				case an.IsNilConst(bo.X) && types.Identical(bo.Y.Type(), errT):
+					ev = bo.Y
+				default:
+					continue
+				}
+				// the error must have been produced inside the loop
+				if in, isIn := ev.(ssa.Instruction); !isIn || !l.blocks[in.Block()] {
+					continue
+				}
+				if ld, isLd := ev.(*ssa.UnOp); isLd && ld.Op == token.MUL {
+					producedInLoop := false
+					if cell, isCell := ld.X.(*ssa.Alloc); isCell {
+						for _, st := range an.Stores(cell) {
+							if l.blocks[st.Block()] {
+								producedInLoop = true
+							}
+						}
+					}
+					if !producedInLoop {
+						continue
+					}
+				}
+				if _, isPhi := ev.(*ssa.Phi); isPhi {
+					continue
+				}
+				examined++
+				nonNil := b.Succs[0]
+				if bo.Op == token.EQL {
+					nonNil = b.Succs[1]
+				}
+				// walk the non-nil side inside the loop until the header: the blocks of that region
+				reachesHeader := false
+				region := map[*ssa.BasicBlock]bool{}
+				var walk func(x *ssa.BasicBlock)
+				walk = func(x *ssa.BasicBlock) {
+					if region[x] {
+						return
+					}
+					if x == l.header {
+						reachesHeader = true
+						return
+					}
+					if !l.blocks[x] {
+						return // left the loop: a return, a break, or the code after the loop
+					}
+					region[x] = true
+					for _, s := range x.Succs {
+						walk(s)
+					}
+				}
+				walk(nonNil)
+				// is the error handed, in that region, to something that keeps or reports it?  Wrapping it
+				// (a call that returns an error again) only moves the question to the wrapped value.
+				consumed := false
+				seenV := map[ssa.Value]bool{}
+				var sink func(v ssa.Value, d int)
+				sink = func(v ssa.Value, d int) {
+					if v == nil || seenV[v] || d > 6 || v.Referrers() == nil {
+						return
+					}
+					seenV[v] = true
+					for _, r := range *v.Referrers() {
+						if !region[r.Block()] {
+							continue
+						}
+						switch y := r.(type) {
+						case *ssa.MakeInterface:
+							sink(y, d+1)
+						case *ssa.ChangeInterface:
+							sink(y, d+1)
+						case *ssa.Store:
+							if y.Val != v {
+								continue
+							}
+							// into the backing array of a variadic call: follow the slice to the call
+							if ia, isIA := y.Addr.(*ssa.IndexAddr); isIA {
+								if arr, isArr := ia.X.(*ssa.Alloc); isArr && arr.Referrers() != nil {
+									for _, rr := range *arr.Referrers() {
+										if sl, isSl := rr.(*ssa.Slice); isSl {
+											sink(sl, d+1)
+										}
+									}
+									continue
+								}
+							}
+							if _, isAlloc := y.Addr.(*ssa.Alloc); !isAlloc {
+								consumed = true // a longer-lived place
+							}
+						case *ssa.Send:
+							consumed = true
+						case ssa.CallInstruction:
+							res := y.Common().Signature().Results()
+							if res.Len() == 1 && types.Identical(res.At(0).Type(), errT) {
+								if cv, isV := y.(*ssa.Call); isV {
+									sink(cv, d+1) // a wrapper
+								}
+								continue
+							}
+							if b, isB := y.Common().Value.(*ssa.Builtin); isB && b.Name() != "append" {
+								continue
+							}
+							consumed = true // logging, collecting, appending
+						}
+					}
+				}
+				sink(ev, 0)
+				// a named result kept in a cell: every load of the cell in the region is the same error
+				if ld, isLd := ev.(*ssa.UnOp); isLd && ld.Op == token.MUL {
+					if cell, isCell := ld.X.(*ssa.Alloc); isCell && cell.Referrers() != nil {
+						for _, r := range *cell.Referrers() {
+							if l2, isL2 := r.(*ssa.UnOp); isL2 && l2.Op == token.MUL && region[l2.Block()] {
+								sink(l2, 0)
+							}
+						}
+					}
+				}
+				if consumed || !reachesHeader {
+					continue
+				}
+				// the error flows on to the next iteration: harmless only if nothing outside the loop reads a value that a later
+				// iteration overwrites -- which is what a phi of the error at the header or after the loop is
+				c.Analysed(k)
+				c.Bad(rule, fmt.Sprintf("%s loop over %s acts on each element's error", k, loopSubject(l)), ifi.Pos(),
+					"an element's error is neither returned, collected nor leaves the loop: the next iteration goes on and a later nil result replaces it, so the invalid element is accepted")
+			}
+		}
+	}
+	return examined
+}
+
+// sharedReadOnlyMethods is the rule for objects that are shared by all requests
+// and documented as safe for concurrent use without a lock of their own: their
+// methods (constructors aside) do not write to the receiver's fields.  A
+// scratch object kept in the receiver "to save an allocation" is written by
+// every caller at once.  Returns the number of methods examined.
+func sharedReadOnlyMethods(c *an.Ctx, rule string, typeNames ...string) (examined int) {
+	want := map[string]bool{}
+	for _, t := range typeNames {
+		want[t] = true
+	}
+	for _, fn := range c.AllFns {
+		if fn.Blocks == nil || c.IsTestFile(fn.Pos()) || fn.Signature.Recv() == nil || fn.Parent() != nil {
+			continue
+		}
+		tn := an.TypeName(fn.Signature.Recv().Type())
+		if !want[tn] {
+			continue
+		}
+		examined++
+		k := an.FnKey(fn)
+		c.Analysed(k)
+		held := an.HeldLocks(fn)
+		bad := ""
+		an.Instrs(fn, func(in ssa.Instruction) {
+			st, ok := in.(*ssa.Store)
+			if !ok {
+				return
+			}
+			ap, ok := an.AccessPath(st.Addr)
+			if !ok || !strings.HasPrefix(ap, "p0.") {
+				return
+			}
+			if len(held[in]) > 0 {
+				return
+			}
+			bad = ap
+		})
+		c.Check(bad == "", rule, k+" does not write to its shared receiver", fn.Pos(),
+			"no store into the receiver's fields outside a lock",
+			"the method writes "+bad+" of an object that every request shares, without a lock: concurrent calls overwrite each other's data")
+	}
+	return examined
+}
+
+// sharedNilGuardedParam is the rule for callbacks whose argument is nil on the
+// error path of their caller: every dereference of parameter number idx in the
+// given function is dominated by a comparison of the parameter with nil.
+func sharedNilGuardedParam(c *an.Ctx, rule, fnKey string, idx int, why string) {
+	fn := c.Fn(fnKey)
+	key := fmt.Sprintf("%s guards its nilable parameter %d", fnKey, idx)
+	if fn == nil || idx >= len(fn.Params) {
+		c.Und(rule, key, token.NoPos, "anchor not found")
+		return
+	}
+	c.Analysed(fnKey)
+	pa := fn.Params[idx]
+	bad := false
+	var pos token.Pos
+	if pa.Referrers() != nil {
+		for _, r := range *pa.Referrers() {
+			fa, ok := r.(*ssa.FieldAddr)
+			if !ok {
+				continue
+			}
+			guarded := false
+			for _, e := range an.DominatingConds(fa.Block()) {
+				bo, isBo := e.If.Cond.(*ssa.BinOp)
+				if !isBo {
+					continue
+				}
+				if (bo.X == ssa.Value(pa) && an.IsNilConst(bo.Y)) || (bo.Y == ssa.Value(pa) && an.IsNilConst(bo.X)) {
+					if (bo.Op == token.NEQ) == e.Branch {
+						guarded = true
+					}
+				}
+			}
+			if !guarded {
+				bad = true
+				pos = fa.Pos()
+			}
+		}
+	}
+	if pos == token.NoPos {
+		pos = fn.Pos()
+	}
+	c.Check(!bad, rule, key, pos, "every dereference is under a nil test", "parameter "+pa.Name()+" is dereferenced without a nil test, but "+why)
 }
